@@ -1,0 +1,7 @@
+//go:build !verif
+
+package builder
+
+import "reflect"
+
+func verifGate(point string, t reflect.Type) {}
